@@ -58,11 +58,18 @@ func accepts(prop, oracle string) bool {
 func controlCase(c *Case) *Case {
 	switch c.Prop {
 	case "C04", "C08":
-		if len(c.Faults) == 0 {
+		if len(c.Faults) == 0 && !c.Rot {
 			return nil
 		}
 		n := c.Clone()
 		n.Faults = nil
+		for ci := range n.Clients {
+			for oi := range n.Clients[ci] {
+				if n.Clients[ci][oi].K == "rot" {
+					n.Clients[ci][oi].Slot = 0 // reopen without damage
+				}
+			}
+		}
 		return n
 	case "C16":
 		n := c.Clone()
